@@ -77,7 +77,17 @@ SwapSig       == sig' = [key |-> "other", over |-> body, intact |-> TRUE] /\ UNC
 EditSigPacket == sig' = [sig EXCEPT !.intact = FALSE] /\ UNCHANGED <<arch, body, whole>> /\ Step("EditSigPacket")
 TruncProv     == whole' = FALSE /\ UNCHANGED <<arch, body, sig>> /\ Step("TruncProv")
 
+\* A broken signing tool of the SIGNER (not the attacker): the message is validly signed by the signer
+\* but records, for the archive, something that is not its digest - nothing at all, only the trailing
+\* or only the leading hex digits, or the digest without the "sha256:" marker.  Only as the first step.
+Craft(form) == /\ hist = <<>>
+               /\ body' = [body EXCEPT !.digest = form]
+               /\ sig' = [key |-> "signer", over |-> body', intact |-> TRUE]
+               /\ UNCHANGED <<arch, whole>> /\ Step(form)
+CraftForms == {"SignEmpty", "SignTail", "SignHead", "SignNoMarker"}
+
 Tamper == \/ FlipArchive \/ TruncArchive \/ Rename \/ RenameCase
+          \/ \E f \in CraftForms : Craft(f)
           \/ EditBody \/ FixDigest \/ BreakDigest \/ FixName
           \/ SwapSig \/ EditSigPacket \/ TruncProv
 
@@ -90,12 +100,23 @@ SigChecks == whole /\ sig.intact /\ sig.over = body /\ sig.key \in Ring(ring)
 DigestOK  == body.fname = arch.name /\ body.digest = arch.content
 Accept    == SigChecks /\ DigestOK
 
+\* the verdict under another keyring: it depends on the keyring as it is NOW, whatever keyrings
+\* (also under the same file name) were used for earlier verifications
+AcceptWith(k) == whole /\ sig.intact /\ sig.over = body /\ sig.key \in Ring(k) /\ DigestOK
+\* a history: the keyring file is first written with keyring k and the chart verified, then rewritten
+\* with the case's keyring and the chart verified again
+History(k) == <<AcceptWith(k), Accept>>
+
+
 \* outcome of ChartDownloader.DownloadTo: TRUE = returns without error
 Download(strategy, provOnServer) ==
   CASE strategy = "never"      -> TRUE
     [] strategy = "later"      -> TRUE
     [] strategy = "ifpossible" -> IF provOnServer THEN Accept ELSE TRUE
     [] strategy = "always"     -> IF provOnServer THEN Accept ELSE FALSE
+
+\* install / upgrade / template / show --verify, the chart given by name with or without --repo
+Locate(verify, repo) == IF verify THEN Download("always", TRUE) ELSE TRUE
 
 \* helm pull: --verify asks for verification (required), --prov only for the provenance file;
 \* with both, verification is still required
@@ -132,15 +153,18 @@ Inv_NoForgery == (Accept /\ "other" \notin Ring(ring)) =>
 Inv_Required == /\ \A p \in BOOLEAN : Download("always", p) => Accept
                 /\ \A l \in BOOLEAN : Pull(TRUE, l, TRUE) => Accept
                 /\ \A i \in DOMAIN DepOrders : DepsUpdate("always", DepOrders[i]) => Accept
+                /\ \A r \in BOOLEAN : Locate(TRUE, r) => Accept
+                /\ \A k \in Keyrings : History(k)[2] = Accept
 
 (* ----- export --------------------------------------------------------------------- *)
 
 ActNo(a) == CASE a = "FlipArchive" -> 1 [] a = "TruncArchive" -> 2 [] a = "Rename" -> 3 [] a = "EditBody" -> 4
               [] a = "FixDigest" -> 5 [] a = "BreakDigest" -> 6 [] a = "FixName" -> 7 [] a = "SwapSig" -> 8
               [] a = "EditSigPacket" -> 9 [] a = "TruncProv" -> 10 [] a = "RenameCase" -> 11
+              [] a = "SignEmpty" -> 12 [] a = "SignTail" -> 13 [] a = "SignHead" -> 14 [] a = "SignNoMarker" -> 15
 RingNo(k) == CASE k = "signer" -> 1 [] k = "both" -> 2 [] k = "others" -> 3 [] k = "empty" -> 4
 RECURSIVE HistNo(_)
-HistNo(h) == IF h = <<>> THEN 0 ELSE ActNo(Head(h)) + 12 * HistNo(Tail(h))
+HistNo(h) == IF h = <<>> THEN 0 ELSE ActNo(Head(h)) + 16 * HistNo(Tail(h))
 CaseNo == RingNo(ring) + 5 * HistNo(hist)
 
 Strategies == <<"never", "ifpossible", "always", "later">>
@@ -154,6 +178,9 @@ Export ==
                                    withoutProv |-> Download(Strategies[i], FALSE)]],
      pull |-> [i \in 1..4 |-> LET v == i > 2  l == i % 2 = 0 IN
                  [verify |-> v, later |-> l, withProv |-> Pull(v, l, TRUE), withoutProv |-> Pull(v, l, FALSE)]],
+     history |-> LET ks == <<"signer", "both", "others", "empty">> IN
+                   [i \in 1..4 |-> [first |-> ks[i], verdicts |-> History(ks[i])]],
+     locate |-> [i \in 1..2 |-> [verify |-> i = 1, repo |-> TRUE, ok |-> Locate(i = 1, TRUE)]],
      deps |-> [i \in DOMAIN DepOrders |-> [order |-> DepOrders[i], strategy |-> "always",
                                            ok |-> DepsUpdate("always", DepOrders[i])]]])
 =============================================================================
